@@ -177,7 +177,13 @@ def run(ctx):
 
     def closing_scan(f, loop):
         opened = {norm(a.targets[0]) for a in own_statements(f.node.body) if isinstance(a, ast.Assign) and isinstance(a.value, ast.Dict) and not a.value.keys}
-        return next((s for s in loop.body if isinstance(s, ast.For) and isinstance(s.iter, ast.Name) and s.iter.id in opened), None) if loop else None
+        def scans(s):
+            if isinstance(s, ast.For) and isinstance(s.iter, ast.Name) and s.iter.id in opened:
+                return True
+            # the same scan written as a comprehension: `closed = [n for n in <open notes> if ..]`
+            return isinstance(s, ast.Assign) and isinstance(s.value, (ast.ListComp, ast.SetComp, ast.GeneratorExp)) and \
+                any(isinstance(g.iter, ast.Name) and g.iter.id in opened for g in s.value.generators)
+        return next((s for s in loop.body if scans(s)), None) if loop else None
     X.rule_every_round_passes(ctx, f"{M}:pianoroll_to_notearray", frame_loop, closing_scan, "every frame closes the notes that stopped sounding",
                               "some path through the frame loop of pianoroll_to_notearray skips the scan of the open notes: a note followed by a frame "
                               "the path skips (e.g. an all-silent frame) is not closed there and comes back too long, merged with a later note of the same pitch")
